@@ -39,6 +39,7 @@ fn run(cx: &mut Cx, mode: Mode) {
     }
     cx.run();
     if mode == Mode::Complete && cx.ch.chance("concurrent_burst", 1, 6) { crate::scen_burst::sign_burst(cx); }
+    if mode == Mode::Complete { crate::scen_sweep::sign(cx); }
 }
 
 fn session(cx: &mut Cx, mode: Mode, s: u64, issuer: NodeId, holder: NodeId, ideal: Shared) {
